@@ -7,7 +7,7 @@ import numpy as np
 from hypothesis import strategies as st
 
 import geometer as G
-from geometer import Conic, Line, Plane, Point, PointCollection, Quadric, Transformation, crossratio, join, meet
+from geometer import Conic, Line, Plane, Point, PointCollection, Quadric, Transformation, crossratio, join, meet, translation
 
 from .. import common as C
 from .. import exact as X
@@ -44,7 +44,8 @@ def jm_case(draw, tier="quick"):
     dim, op, nb = c01.KINDS[kind]
     base = [draw(C.hpoint(dim, 9)) for _ in range(nb)]
     return {"d": dim, "kind": kind, "base": base, "coef": [draw(st.integers(-3, 3)), draw(st.sampled_from([1, -1, 2]))],
-            "scales": [draw(C.scale()) for _ in range(3)], "m": draw(Z.params(9)), "mclass": draw(st.sampled_from(Z.MCLASSES))}
+            "scales": [draw(C.scale()) for _ in range(3)], "m": draw(Z.params(9)), "mclass": draw(st.sampled_from(Z.MCLASSES)),
+            "plus": draw(st.sampled_from([None, None, [1, 0, 1], [-1, 1, 1], [1, -1, 3], [-1, 0, 3]]))}
 
 
 def run_jm(c):
@@ -65,6 +66,25 @@ def run_jm(c):
     naxes = a.array.ndim
     ck.check(type(a) is type(b), f"commute:{kind}:type", (type(a).__name__, type(b).__name__))
     ck.check(a.array.shape == b.array.shape and C.peq_all(a.array, b.array, naxes, 1e-7), f"commute:{kind}", C.short((a.array.tolist(), b.array.tolist())))
+    at_inf = lambda z: isinstance(z, G.point.PointTensor) and bool(np.any(z.isinf))  # noqa: E731
+    plain, fplain = call(f"{kind}", lambda: op(*objs))
+    if c.get("plus") is not None and fplain is None and not any(at_inf(z) for z in list(objs) + [plain]):
+        # the translation by a point written with the operator: x + p (p given by any representative) is translation(p) * x
+        # (for finite points; a point at infinity is a direction in the point arithmetic of C19 and becomes a finite point)
+        vec = np.array([float(x) for x in c["m"][:d]])
+        fac = C.scale_value(c["plus"])
+        Pp = Point(np.append(vec, 1.0) * fac)
+        tr = translation(*vec)
+        x0, f0 = call(f"{kind}:+p", lambda: op(*objs) + Pp)
+        x1, f1 = call(f"{kind}(+p)", lambda: op(*[o + Pp for o in objs]))
+        x2, f2 = call(f"translation*{kind}", lambda: tr * op(*objs))
+        x3, f3 = call(f"{kind}:-(-p)", lambda: op(*objs) - Point(np.append(-vec, 1.0) * fac))
+        for f in (f0, f1, f2, f3):
+            if f:
+                ck.add(f)
+        if not (f0 or f1 or f2 or f3):
+            for name, y in (("x+p=op(args+p)", x1), ("x+p=translation(p)*x", x2), ("x+p=x-(-p)", x3)):
+                ck.check(y.array.shape == x0.array.shape and C.peq_all(x0.array, y.array, naxes, 1e-7), f"commute:{kind}:{name}", C.short((np.asarray(x0.array).tolist(), np.asarray(y.array).tolist())))
     return ck.result()
 
 
@@ -467,7 +487,7 @@ def run_jmc(c):
 
 
 LAWS = [
-    Law("join_meet_commute", lambda tier: jm_case(tier), run_jm, nontrivial, lambda c: [c["kind"]], {"quick": 1200, "thorough": 30000},
+    Law("join_meet_commute", lambda tier: jm_case(tier), run_jm, nontrivial, lambda c: [c["kind"]] + (["operator-translation"] if c.get("plus") is not None else []), {"quick": 1500, "thorough": 30000},
         "t*join(..) = join(t*..), t*meet(..) = meet(t*..) for every arity/kind", shard=400),
     Law("join_meet_commute_collections", lambda tier: jmc_case(tier), run_jmc, nontrivial,
         lambda c: [c["kind"], f"axes{len(c['grid']) + 1}", "t-collection" if c["tcoll"] and c["k"] > 1 else "single-t"] + (["t-collection:axes3"] if c["tcoll"] and c["k"] > 1 and len(c["grid"]) == 2 else [])
